@@ -483,8 +483,22 @@ def shared_state(ctx) -> None:
     graph = cfg.CFG(lz.node)
     marks = [s for s in graph.statements() if isinstance(s, ast.Assign) and any(isinstance(tg, ast.Subscript) and core.src(tg.value).endswith('PARTITIONS') for tg in s.targets)]
     regs = [s for s in graph.statements() if any(isinstance(c.func, ast.Attribute) and c.func.attr == 'execute' and 'BACKEND' in core.src(c.func.value) for c in cfg.header_calls(s))]
+    # every table of the statement is provisioned: the loop that registers origins runs over all of them - wherever it lives
+    # in the reader class - without an early ``return`` / ``break`` (an already registered origin is *skipped*, not the end)
+    reader = prog.cls('forml.provider.feed.lazy:Feed.Reader')
+    loops = []
+    for mname in reader.methods:
+        m = prog.func(f'{reader.ref}.{mname}')
+        for lp in core.walk_local(m.node):
+            if isinstance(lp, ast.For) and any(isinstance(c, ast.Call) and isinstance(c.func, ast.Attribute) and ((c.func.attr == 'execute' and 'BACKEND' in core.src(c.func.value)) or (c.func.attr in reader.methods and c.func.attr != '__call__' and core.src(c.func.value) == 'self')) for c in ast.walk(lp)):
+                loops.append((m, lp))
+    ctx.floor('C06.provision-all', len(loops), 1)
+    for m, lp in loops:
+        early = [x for b in lp.body for x in core.walk_local(b) if isinstance(x, (ast.Return, ast.Break))]
+        ctx.check(not early, 'C06.provision-all', m, 'the origin registration loop visits every table of the statement: no early return/break (a registered origin is skipped with continue)', early[0] if early else lp, key='lazy:all-tables')
     if not marks or not regs:
-        raise core.AnalysisError('lazy reader: registration / PARTITIONS bookkeeping idiom not found')
+        ctx.fail('C06.register-then-mark', lz, 'the reader entry point no longer shows the registration of origins followed by the PARTITIONS bookkeeping (after undoing helper extractions): it cannot be established that an origin is marked only after it was registered', lz.node, key='lazy:idiom')
+        return
     ordered = all(graph.must_pass(cfg.ENTRY, m, via=regs, normal_only=True) and not any(graph.reaches(m, r, normal_only=True, no_back=True) for r in regs) for m in marks)
     ctx.check(ordered, 'C06.register-then-mark', lz, 'PARTITIONS records an origin only after its data was registered with the backend (a failed load must not leave the origin marked as present)', marks[0], key='lazy:mark-after-register')
 
